@@ -206,4 +206,8 @@ def check(ctx: Ctx) -> None:
     from .C05 import check_kill_on_timeout
     check_kill_on_timeout(ctx, "C16.h")
     check_socket_halfclose(ctx, "C16.i")
+    with ctx.obligation("C16.j", "empty-read-is-eof") as ob:
+        # the proxied transport signals its end by an empty read, the others by raising: both must end in EOFError at the framing layer
+        from .C08 import check_empty_header_eof
+        check_empty_header_eof(ctx.repo, ob)
 
